@@ -196,10 +196,11 @@ class Ctx:
             return [f.result() for f in futs]
 
     # -- harness ------------------------------------------------------------
-    def build_harness(self, family, tags="verif"):
-        """Builds harness/cmd/<family> from the repository's current working tree."""
-        if family in self.harness_bins:
-            return self.harness_bins[family]
+    def build_harness(self, family, tags="verif", race=False):
+        """Builds harness/cmd/<family> from the repository's current working tree (race: with Go's race detector)."""
+        key = family + ("-race" if race else "")
+        if key in self.harness_bins:
+            return self.harness_bins[key]
         dst = self.path("harness")
         e = dict(os.environ)
         e.update(GOENV)
@@ -210,21 +211,21 @@ class Ctx:
             gm = re.sub(r"replace github.com/lugu/qiloop => \S+", "replace github.com/lugu/qiloop => " + self.repo, gm)
             open(os.path.join(dst, "go.mod"), "w").write(gm)
             shutil.copy(os.path.join(self.repo, "go.sum"), os.path.join(dst, "go.sum"))
-        out = self.path("harness-%s.bin" % family)
+        out = self.path("harness-%s.bin" % key)
         t = time.time()
-        p = subprocess.run(["go", "build", "-tags", tags, "-o", out, "./cmd/" + family], cwd=dst, env=e,
+        p = subprocess.run(["go", "build"] + (["-race"] if race else []) + ["-tags", tags, "-o", out, "./cmd/" + family], cwd=dst, env=e,
                            stdout=subprocess.PIPE, stderr=subprocess.STDOUT, text=True)
         if p.returncode != 0:
             # a tree that does not build is not a verdict about the property
             raise Infra("harness build failed:\n" + p.stdout[-4000:])
-        log("harness %s built in %.1fs" % (family, time.time() - t))
-        self.harness_bins[family] = out
+        log("harness %s built in %.1fs" % (key, time.time() - t))
+        self.harness_bins[key] = out
         self.harness_src = dst
         return out
 
-    def harness(self, family, args, timeout=600, input=None, env=None, check=True):
+    def harness(self, family, args, timeout=600, input=None, env=None, check=True, race=False):
         """Run harness/cmd/<family> <args>; returns (rc, stdout, stderr)."""
-        b = self.build_harness(family)
+        b = self.build_harness(family, race=race)
         e = dict(os.environ)
         e["VERIF_SEED"] = str(self.seed)
         e["VERIF_TIER"] = self.tier
